@@ -11,7 +11,7 @@
 namespace sim {
 
 struct Val {
-  enum K { VAR = 0, CONST = 1, ADD = 2, SUB = 3, CALL = 4 } k = CONST;
+  enum K { VAR = 0, CONST = 1, ADD = 2, SUB = 3, CALL = 4, BADD = 5, BMUL = 6, DBL = 7 } k = CONST;   // BADD / BMUL / DBL: MF_ARITH expressions (args)
   std::string var;      // VAR / ADD / SUB operand
   long long c = 0;      // CONST / ADD / SUB constant
   std::string callee;   // CALL
@@ -21,7 +21,7 @@ struct Val {
 
 struct Stmt {
   // core statements, then macro statements (the AST holds what they mean; the printer emits the macro use)
-  enum K { ASSIGN = 0, LOOP = 1, WHILE = 2, GOTO = 3, IF = 4, STOP = 5, NOP = 6, SWAP = 7, ITE = 8 } k = ASSIGN;
+  enum K { ASSIGN = 0, LOOP = 1, WHILE = 2, GOTO = 3, IF = 4, STOP = 5, NOP = 6, SWAP = 7, ITE = 8, TWICE = 9 } k = ASSIGN;
   int id = 0;                       // unique within the project, assigned by number_statements()
   std::vector<std::string> labels;  // labels in front of the statement
   std::string var;                  // ASSIGN target; LOOP / WHILE / IF variable; SWAP first
@@ -43,7 +43,8 @@ struct Routine {
   int share = 0;  // > 0: routines with equal share id are textually identical and live in one file included repeatedly
 };
 
-enum MacroFamily { MF_CALL = 1, MF_NOP = 2, MF_SWAP = 4, MF_ITE = 8, MF_NONLR = 16 /* a definition the compiler must reject: pattern ends in <P> */ };
+enum MacroFamily { MF_CALL = 1, MF_NOP = 2, MF_SWAP = 4, MF_ITE = 8, MF_NONLR = 16 /* a definition the compiler must reject: pattern ends in <P> */, MF_TWICE = 32 /* body runs two loops over one temporary */,
+                   MF_ARITH = 64 /* infix + and * and prefix @ as user macros of priorities 10, 20, 15 over programs add / mul */ };
 
 struct Ast {
   std::vector<Routine> defs;
